@@ -26,6 +26,11 @@ fn compare_numbers_for_range<F>(left: &Value, right: &Value, cmp: &F) -> Value
 where
     F: Fn(Ordering) -> bool,
 {
+    // Two integers are compared as integers: `as f64` rounds beyond 2^53 and would make
+    // e.g. 9007199254740993 <= 9007199254740992 true while both `<` and `=` are false.
+    if let (Value::Int(l), Value::Int(r)) = (left, right) {
+        return Value::Bool(cmp(l.cmp(r)));
+    }
     let (l, r) = match (value_as_f64(left), value_as_f64(right)) {
         (Some(l), Some(r)) => (l, r),
         _ => return Value::Null,
